@@ -81,33 +81,29 @@ theorem verOps_lt_gt_eq_ne_lawful (a b : Raw) :
     simp only [verOps, h0, valOps, Py.opsOfSign, Py.attrsOps]
     cases tupleCmp a b <;> simp
 
-/-- C02 for `<=`, `>=` outside the pairs "same base, exactly one pre-release" -/
-theorem verOps_le_ge_lawful_partial (a b : Raw) (h : mixedPre a b = false) :
-    verOps.le a b = (vercmp a b != .gt) ∧ verOps.ge a b = (vercmp a b != .lt) := by
-  rw [vercmp_of_not_mixed a b h]
-  simp only [verOps, valOps, Py.opsOfSign, Py.attrsOps]
-  cases tupleCmp a b <;> simp
+theorem verOps_le_def (a b : Raw) : verOps.le a b = (verOps.lt a b || verOps.eq a b) := rfl
+theorem verOps_ge_def (a b : Raw) : verOps.ge a b = (verOps.gt a b || verOps.eq a b) := rfl
 
-/-- C02 on the largest natural sub-domain: all six operators agree with `vercmp` on every pair
-that is not "same base, exactly one pre-release". -/
-theorem verOps_lawful_partial (a b : Raw) (h : mixedPre a b = false) :
-    verOps.lt a b = (vercmp a b == .lt) ∧ verOps.gt a b = (vercmp a b == .gt) ∧
-    verOps.eq a b = (vercmp a b == .eq) ∧ verOps.ne a b = (vercmp a b != .eq) ∧
-    verOps.le a b = (vercmp a b != .gt) ∧ verOps.ge a b = (vercmp a b != .lt) :=
-  let ⟨h1, h2, h3, h4⟩ := verOps_lt_gt_eq_ne_lawful a b
-  let ⟨h5, h6⟩ := verOps_le_ge_lawful_partial a b h
-  ⟨h1, h2, h3, h4, h5, h6⟩
+/-- C02: the six operators of `LegacyOpensslVersion` are the ones induced by `vercmp`, on ALL
+values (`__le__`/`__ge__` are `lt or ==` / `gt or ==` since the repair). -/
+theorem verOps_lawful : Lawful verOps vercmp where
+  lt a b := (verOps_lt_gt_eq_ne_lawful a b).1
+  gt a b := (verOps_lt_gt_eq_ne_lawful a b).2.1
+  eq a b := (verOps_lt_gt_eq_ne_lawful a b).2.2.1
+  ne a b := (verOps_lt_gt_eq_ne_lawful a b).2.2.2
+  le a b := by
+    obtain ⟨h1, _, h3, _⟩ := verOps_lt_gt_eq_ne_lawful a b
+    rw [verOps_le_def, h1, h3]; cases vercmp a b <;> rfl
+  ge a b := by
+    obtain ⟨_, h2, h3, _⟩ := verOps_lt_gt_eq_ne_lawful a b
+    rw [verOps_ge_def, h2, h3]; cases vercmp a b <;> rfl
 
-example : mixedPre ⟨1, 0, 1, ['a']⟩ ⟨1, 0, 1, ['b']⟩ = false := by decide
-
-/-- DEFECT (C02): `LegacyOpensslVersion("1.0.1-beta1") < LegacyOpensslVersion("1.0.1")` is `True`
-but `<=` is `False`, and `1.0.1 > 1.0.1-beta1` is `True` but `>=` is `False`: `__le__`/`__ge__`
-are the attrs-generated ones and compare the raw tuples without the pre-release rule. -/
-theorem verOps_lawful_counterexample :
+/-- the formerly failing pair: `1.0.1-beta1 <= 1.0.1` and `1.0.1 >= 1.0.1-beta1` now hold -/
+example :
     let a : Raw := ⟨1, 0, 1, "-beta1".toList⟩
     let b : Raw := ⟨1, 0, 1, []⟩
-    verOps.lt a b = true ∧ verOps.le a b = false ∧ verOps.gt b a = true ∧ verOps.ge b a = false ∧
-    vercmp a b = .lt := by decide
+    verOps.lt a b = true ∧ verOps.le a b = true ∧ verOps.gt b a = true ∧ verOps.ge b a = true := by
+  decide
 
 /-- C12: equal versions have equal hash keys -/
 theorem eq_imp_hash (a b : Raw) : verOps.eq a b = true → hashKey a = hashKey b := by
@@ -370,50 +366,152 @@ instance : TransCmp vercmp := by
 theorem vercmp_modern (a b : Semver.Raw) : vercmp (.modern a) (.modern b) = Semver.vercmp a b := by
   rw [vercmp_eq_key, Semver.vercmp_eq_key]; rfl
 
-/-- the pairs on which all six operators are lawful: two legacy versions that are not
-"same base, exactly one pre-release"; two 3.x versions with canonical pre-release identifiers
-(always the case for constructed values, `Semver.construct_preCanon`); one of each. -/
+/-- the pairs on which all six operators are lawful: anything involving a legacy version;
+two 3.x versions need canonical pre-release identifiers (for `==`/`!=` only), which every
+constructed value has (`construct_canon`). -/
 def Compatible : Raw → Raw → Prop
-  | .legacy a, .legacy b => Legacy.mixedPre a b = false
   | .modern a, .modern b => Semver.PreCanon a ∧ Semver.PreCanon b
   | _, _ => True
 
 instance (a b : Raw) : Decidable (Compatible a b) := by
   cases a <;> cases b <;> unfold Compatible <;> infer_instance
 
-/-- C02 on the largest natural sub-domain -/
-theorem verOps_lawful_partial (a b : Raw) (h : Compatible a b) :
+/-- C02 for the four order operators, on ALL values -/
+theorem verOps_order_lawful (a b : Raw) :
     verOps.lt a b = (vercmp a b == .lt) ∧ verOps.gt a b = (vercmp a b == .gt) ∧
-    verOps.eq a b = (vercmp a b == .eq) ∧ verOps.ne a b = (vercmp a b != .eq) ∧
     verOps.le a b = (vercmp a b != .gt) ∧ verOps.ge a b = (vercmp a b != .lt) := by
   cases a with
   | legacy a =>
     cases b with
-    | legacy b => exact Legacy.verOps_lawful_partial a b h
-    | modern b => exact ⟨rfl, rfl, rfl, rfl, rfl, rfl⟩
+    | legacy b =>
+      exact ⟨Legacy.verOps_lawful.lt a b, Legacy.verOps_lawful.gt a b,
+        Legacy.verOps_lawful.le a b, Legacy.verOps_lawful.ge a b⟩
+    | modern b => exact ⟨rfl, rfl, rfl, rfl⟩
   | modern a =>
     cases b with
-    | legacy b => exact ⟨rfl, rfl, rfl, rfl, rfl, rfl⟩
-    | modern b =>
-      rw [vercmp_modern]
-      obtain ⟨h1, h2, h3, h4⟩ := Semver.verOps_order_lawful a b
-      obtain ⟨h5, h6⟩ := Semver.verOps_eq_lawful a b h.1 h.2
-      exact ⟨h1, h2, h5, h6, h3, h4⟩
+    | legacy b => exact ⟨rfl, rfl, rfl, rfl⟩
+    | modern b => rw [vercmp_modern]; exact Semver.verOps_order_lawful a b
 
-example : Compatible (.legacy ⟨1, 0, 1, ['a']⟩) (.modern ⟨3, 0, 0, [], []⟩) := by decide
+/-- C02 with the weakest hypothesis needed: only `==`/`!=` between two 3.x values ask for
+canonical pre-release identifiers. -/
+theorem verOps_lawful_partial (a b : Raw) (h : Compatible a b) :
+    verOps.lt a b = (vercmp a b == .lt) ∧ verOps.gt a b = (vercmp a b == .gt) ∧
+    verOps.eq a b = (vercmp a b == .eq) ∧ verOps.ne a b = (vercmp a b != .eq) ∧
+    verOps.le a b = (vercmp a b != .gt) ∧ verOps.ge a b = (vercmp a b != .lt) := by
+  obtain ⟨h1, h2, h3, h4⟩ := verOps_order_lawful a b
+  refine ⟨h1, h2, ?_, ?_, h3, h4⟩
+  · cases a with
+    | legacy a =>
+      cases b with
+      | legacy b => exact Legacy.verOps_lawful.eq a b
+      | modern b => rfl
+    | modern a =>
+      cases b with
+      | legacy b => rfl
+      | modern b => rw [vercmp_modern]; exact (Semver.verOps_eq_lawful a b h.1 h.2).1
+  · cases a with
+    | legacy a =>
+      cases b with
+      | legacy b => exact Legacy.verOps_lawful.ne a b
+      | modern b => rfl
+    | modern a =>
+      cases b with
+      | legacy b => rfl
+      | modern b => rw [vercmp_modern]; exact (Semver.verOps_eq_lawful a b h.1 h.2).2
 
-/-- DEFECT (C02), inherited from `LegacyOpensslVersion`: `OpensslVersion("1.0.1-beta1") <
-OpensslVersion("1.0.1")` is `True` but `<=` is `False` (and `>` / `>=` the other way round). -/
+example : Compatible (.legacy ⟨1, 0, 1, "-beta1".toList⟩) (.legacy ⟨1, 0, 1, []⟩) := by decide
+
+/-- canonical values: no numeric pre-release identifier of a 3.x value has a leading zero -/
+def Canon : Raw → Prop
+  | .legacy _ => True
+  | .modern v => Semver.PreCanon v
+
+instance (r : Raw) : Decidable (Canon r) := by cases r <;> unfold Canon <;> infer_instance
+
+theorem compatible_of_canon {a b : Raw} (ha : Canon a) (hb : Canon b) : Compatible a b := by
+  cases a <;> cases b <;> simp_all [Compatible, Canon]
+
+theorem liftSemver_ok {x : Except PErr Semver.Raw} {r : Raw} (h : liftSemver x = .ok r) :
+    ∃ v, x = .ok v ∧ r = .modern v := by
+  cases x with
+  | error e => cases h
+  | ok v => exact ⟨v, rfl, by cases h; rfl⟩
+
+theorem buildValue_modern (n : List Char) (v : Semver.Raw)
+    (h : buildValue n = .ok (some (.modern v))) : Semver.construct n = .ok v := by
+  unfold buildValue at h
+  simp only [bind, Except.bind] at h
+  split at h
+  · cases h
+  · split at h
+    · split at h
+      · cases h
+      · cases h
+    · split at h
+      · split at h
+        · cases h
+        · rename_i w hw
+          obtain ⟨v', hv', e⟩ := liftSemver_ok hw
+          simp only [Except.ok.injEq, Option.some.injEq] at h
+          subst h
+          cases e
+          exact hv'
+      · cases h
+
+theorem construct_buildValue (s : List Char) (r : Raw) (h : construct s = .ok r) :
+    buildValue (Semver.normalize s) = .ok (some r) := by
+  unfold construct at h
+  simp only [bind, Except.bind] at h
+  split at h
+  · cases h
+  · split at h
+    · cases h
+    · split at h
+      · cases h
+      · rename_i o ho
+        cases o with
+        | none => cases h
+        | some w => cases h; exact ho
+
+/-- every `OpensslVersion(string)` value is canonical -/
+theorem construct_canon (s : List Char) (r : Raw) (h : construct s = .ok r) : Canon r := by
+  cases r with
+  | legacy v => trivial
+  | modern v =>
+    exact Semver.construct_preCanon _ _ (buildValue_modern _ v (construct_buildValue s _ h))
+
+/-- the constructible values -/
+def CanonRaw : Type := { r : Raw // Canon r }
+
+def verOpsCanon : VOps CanonRaw where
+  lt a b := verOps.lt a.1 b.1
+  le a b := verOps.le a.1 b.1
+  gt a b := verOps.gt a.1 b.1
+  ge a b := verOps.ge a.1 b.1
+  eq a b := verOps.eq a.1 b.1
+  ne a b := verOps.ne a.1 b.1
+
+/-- C02 on the values the constructor can produce (`construct_canon`): the six operators of
+`OpensslVersion` are the ones induced by `vercmp`. -/
+theorem verOps_lawful : Lawful verOpsCanon (fun a b => vercmp a.1 b.1) where
+  lt a b := (verOps_lawful_partial a.1 b.1 (compatible_of_canon a.2 b.2)).1
+  gt a b := (verOps_lawful_partial a.1 b.1 (compatible_of_canon a.2 b.2)).2.1
+  eq a b := (verOps_lawful_partial a.1 b.1 (compatible_of_canon a.2 b.2)).2.2.1
+  ne a b := (verOps_lawful_partial a.1 b.1 (compatible_of_canon a.2 b.2)).2.2.2.1
+  le a b := (verOps_lawful_partial a.1 b.1 (compatible_of_canon a.2 b.2)).2.2.2.2.1
+  ge a b := (verOps_lawful_partial a.1 b.1 (compatible_of_canon a.2 b.2)).2.2.2.2.2
+
+/-- NOT a defect of the code: two 3.x `Raw`s that no constructor produces (`-01` is rejected)
+show why `==` needs `PreCanon` (see `Semver.verOps_lawful_counterexample`). -/
 theorem verOps_lawful_counterexample :
-    let a : Raw := .legacy ⟨1, 0, 1, "-beta1".toList⟩
-    let b : Raw := .legacy ⟨1, 0, 1, []⟩
-    verOps.lt a b = true ∧ verOps.le a b = false ∧ verOps.gt b a = true ∧ verOps.ge b a = false ∧
-    vercmp a b = .lt := by decide
+    vercmp (.modern ⟨3, 0, 0, [['0', '1']], []⟩) (.modern ⟨3, 0, 0, [['1']], []⟩) = .eq ∧
+    verOps.eq (.modern ⟨3, 0, 0, [['0', '1']], []⟩) (.modern ⟨3, 0, 0, [['1']], []⟩) = false := by
+  decide
 
-/-- DEFECT (C12): `hash(OpensslVersion(...))` raises `TypeError` (`__eq__` without `__hash__`) -/
-theorem unhashable : hashable = false := rfl
+/-- `OpensslVersion.__hash__` exists (`hash(self.value)`) -/
+theorem hashable_true : hashable = true := rfl
 
-/-- what C12 would need once a `__hash__` is added: equal versions have equal values -/
+/-- C12: equal versions have equal hash keys (all values) -/
 theorem eq_imp_hash (a b : Raw) : verOps.eq a b = true → hashKey a = hashKey b := by
   cases a with
   | legacy a =>
